@@ -15,6 +15,15 @@ func init() { props["C18"] = checkC18 }
 
 func checkC18(c *Ctx) {
 	c.Decides("MAPRANGE: every `range` over a map in the repository is classified; a body (followed into repository callees, depth<=3) that writes, appends without a following sort, accumulates floats, keeps the first/last entry or stores under a key not derived from the iteration key makes the result depend on Go's randomised map order")
+	c.Decides("ARRIVAL-ORDER: inside a `go` function the value returned by a sync/atomic Add/Swap/CompareAndSwap is never used (an identifier, file name or index taken from a shared counter depends on which goroutine arrives first)")
+	nao, _ := c.arrivalOrder("ARRIVAL-ORDER", c.All, "running with several threads may only change the order in which per-tree records arrive, each record carrying its tree identifier")
+	c.Extra["atomic_updates_in_goroutines"] = nao
+	c.Floor("ARRIVAL-ORDER", 1)
+	if fx := c.Fixture(); fx != nil {
+		sub := c.subCtx(fx)
+		_, nv := sub.arrivalOrder("ARRIVAL-ORDER", fx, "")
+		c.Control("ARRIVAL-ORDER", nv == 1, "fixture.C18ArrivalOrder indexes its output by the value atomic.AddInt32 returns inside a goroutine")
+	}
 	c.Decides("RANDSRC: math/rand.Seed is called only from the root command's PersistentPreRun with the --seed storage; every other PersistentPreRun[E] delegates to it; no private random source (rand.New/NewSource, crypto/rand, math/rand/v2, hash/maphash whose seeds are per-process, os.Getpid); time.Now() flows only into the seed default (seed == -1) and the support log; no %p formatting")
 	c.DoesNotDecide("order of per-tree records of threaded commands (permitted by the property); order dependence hidden behind external calls assumed pure (listed in evidence); injectivity of keys derived from the iteration key")
 	c.Assume = append(c.Assume, "objects looked up by distinct map keys are distinct", "external (non-repository) calls without a Write/Print-like name have no order-dependent effect")
